@@ -354,7 +354,7 @@ class FnTotality:
                     s.why = "size argument >= 1"
                     self.sites.append(s)
                 elif name.endswith("Vec::<T, A>::insert") \
-                        or name.endswith("::swap") or name.endswith("]>::chunks") or name.endswith("]>::chunks_exact") or name.endswith("]>::windows") \
+                        or name.endswith("]>::swap") or name.endswith("]>::chunks") or name.endswith("]>::chunks_exact") or name.endswith("]>::windows") \
                         or name.endswith("]>::chunks_mut") or name.endswith("]>::chunks_exact_mut") or name.endswith("::step_by") \
                         or name.endswith("Vec::<T, A>::remove") or name.endswith("::copy_within") or name.endswith("Vec::<T, A>::drain"):
                     self.sites.append(Site(self.fn, bi, "stdpanic", disc_with_ordinal(name.split("::")[-1]), t[5], mac))
